@@ -643,7 +643,8 @@ PROP = Prop(
     pid="C06",
     props_v="theories/Props/C06.v",
     theory_files=["theories/Coro/Tree.v", "theories/Coro/Native.v", "theories/Coro/TreeProofs.v",
-                  "theories/Coro/AsyncGen.v", "theories/Coro/GenObj.v", "theories/Coro/GenObjProofs.v",
+                  "theories/Coro/AsyncGen.v", "theories/Coro/GenObj.v", "theories/Coro/GenObjSim.v",
+                  "theories/Coro/GenObjProofs.v",
                   "theories/Coro/GenObjCorr.v"],
     streams=[
         Stream(name="native", imports=IMPORTS, run="GenObjCorr.native_run", input_type="gprog * list hop",
